@@ -869,10 +869,10 @@ func runCase(c driver.Case) driver.Result {
 
 func main() {
 	driver.Main(driver.Property{
-		ID:    "C03",
-		Level: "exploration",
-		Rule:  "(a) subscriptions/subscribers with n ≤ 4 counting teardowns and every subset of them panicking, closed via Unsubscribe / Complete / Error; Add after disposal; races of Unsubscribe/Complete/Error/Add/Wait from 2-8 goroutines with yields at the unlock-then-finalize hook points. (b) every catalogue entry (and random chains) over puppet sources at every input: k values then ending ∈ {complete, error, Unsubscribe from the harness / another goroutine / inside the observer}, plus synchronous cold sources that end inside Subscribe. Oracle: every teardown counter == 1 (sources, added teardowns, TapOnFinalize) once the subscription is closed and Subscribe returned; panics re-raised only after all ran; no goroutine with a library frame remains after quiescence (goroutine ids snapshotted before the case). Non-trivial: teardown counters were read; distinct = (pipeline, ending, trace).",
-		Assume: []string{"operators that wait inside Subscribe are only driven to a terminal here (cutting them is C14's subject)", "a goroutine about to exit is waited for (quiescence) before its presence is reported"},
+		ID:        "C03",
+		Level:     "exploration",
+		Rule:      "(a) subscriptions/subscribers with n ≤ 4 counting teardowns and every subset of them panicking, closed via Unsubscribe / Complete / Error; Add after disposal; races of Unsubscribe/Complete/Error/Add/Wait from 2-8 goroutines with yields at the unlock-then-finalize hook points. (b) every catalogue entry (and random chains) over puppet sources at every input: k values then ending ∈ {complete, error, Unsubscribe from the harness / another goroutine / inside the observer}, plus synchronous cold sources that end inside Subscribe. Oracle: every teardown counter == 1 (sources, added teardowns, TapOnFinalize) once the subscription is closed and Subscribe returned; panics re-raised only after all ran; no goroutine with a library frame remains after quiescence (goroutine ids snapshotted before the case). Non-trivial: teardown counters were read; distinct = (pipeline, ending, trace). Also: spin-barrier rounds (20 000 per case, swept offset) of Add racing Unsubscribe/Complete/Error - every added teardown runs exactly once whichever side wins; multi-source entries with every non-empty subset of their sources having a panicking teardown (all sources still released exactly once).",
+		Assume:    []string{"operators that wait inside Subscribe are only driven to a terminal here (cutting them is C14's subject)", "a goroutine about to exit is waited for (quiescence) before its presence is reported"},
 		Plan:      plan,
 		Run:       runCase,
 		CaseWatch: 30 * time.Second,
